@@ -335,6 +335,29 @@ func (m *MemoryBackend) Publish(client *Client, msg *packet.Message, ack Ack) er
 	// eventually deadlock the broker. full queues are skipped if the client is
 	// or is going offline
 
+	// refuse the message before anything is changed if it would have to be
+	// added to the full queue of the publishing client itself (deadlock),
+	// concurrent dequeues only make more room. a closing client (will message)
+	// will not read its queue anymore and is skipped instead
+	closing := false
+	if client != nil {
+		select {
+		case <-client.Closing():
+			closing = true
+		default:
+		}
+		own, _ := client.Session().(*memorySession)
+		if own != nil && !closing && own.lookupSubscription(msg.Topic) != nil {
+			ownQueue := own.temporaryQueue
+			if msg.QOS > 0 {
+				ownQueue = own.storedQueue
+			}
+			if len(ownQueue) == cap(ownQueue) {
+				return ErrQueueFull
+			}
+		}
+	}
+
 	// check retain flag
 	if msg.Retain {
 		if len(msg.Payload) > 0 {
@@ -369,7 +392,9 @@ func (m *MemoryBackend) Publish(client *Client, msg *packet.Message, ack Ack) er
 				select {
 				case queue(sess) <- msg:
 				default:
-					return ErrQueueFull
+					if !closing {
+						return ErrQueueFull
+					}
 				}
 			} else {
 				// wait for room since client is online, but never drop the
@@ -394,7 +419,9 @@ func (m *MemoryBackend) Publish(client *Client, msg *packet.Message, ack Ack) er
 				select {
 				case queue(sess) <- msg:
 				default:
-					return ErrQueueFull
+					if !closing {
+						return ErrQueueFull
+					}
 				}
 			} else if sess.activeClient != nil {
 				// wait for room since client is online, but never drop the
